@@ -47,7 +47,7 @@ def names_of(built):
 
 def design_case(seed, opts):
     """one design of the dedicated generator -> dict"""
-    from .. import gen_design
+    from .. import gen_hier as gen_design
     rng = random.Random(seed)
     hist = {}
     case = {"seed": seed, "opts": opts,
@@ -159,6 +159,14 @@ def classify(case, what):
     return cls + case.get("shapes", [])
 
 
+def report(chk, summary, replay):
+    """chk.violation, but a violation without a finding class is never lost to the cap on stored violations"""
+    before = len(chk.violations)
+    if chk.violation(summary, replay) and len(chk.violations) == before and not replay.get("classes"):
+        chk.violations.insert(0, (summary, replay))
+        chk.violations.pop()
+
+
 def judge(chk, case, resp):
     replay = {"design_seed": case["seed"], "stream": case["stream"], "opts": case.get("opts"),
               "how": "harness.checks.c07.design_case(design_seed, opts) (c02_case(design_seed) for stream c02)"}
@@ -166,6 +174,8 @@ def judge(chk, case, resp):
         chk.hist("constructs", k, v)
     if "generator_error" in case:
         chk.hist("outcome", "generator_error:" + case["generator_error"][0])
+        chk.extra["generator_errors"] = chk.extra.get("generator_errors", 0) + 1
+        chk.extra["generator_error_example"] = case["generator_error"][1]
         return
     chk.count(1)
     if "error" in case:
@@ -174,7 +184,7 @@ def judge(chk, case, resp):
             chk.hist("outcome", "rejected:" + kind)
             return
         chk.hist("outcome", "raises:" + kind)
-        chk.violation(f"rtlil.convert of an elaboratable design raises {kind} in {where}: {msg[:120]} "
+        report(chk, f"rtlil.convert of an elaboratable design raises {kind} in {where}: {msg[:120]} "
                       f"(stream {case['stream']}, design seed {case['seed']})",
                       dict(replay, kind="raises", error=[kind, msg, where], names=case.get("names"), classes=classify(case, "raises")))
         return
@@ -183,7 +193,7 @@ def judge(chk, case, resp):
     if d.get("parse") == "error":
         ln, src = line_of(text, d)
         chk.hist("outcome", "parse_error")
-        chk.violation(f"emitted RTLIL does not parse: line {ln} `{src.strip()[:100]}` ({d.get('msg')}) "
+        report(chk, f"emitted RTLIL does not parse: line {ln} `{src.strip()[:100]}` ({d.get('msg')}) "
                       f"(stream {case['stream']}, design seed {case['seed']})",
                       dict(replay, kind="parse", line=ln, source=src, msg=d.get("msg"), names=case.get("names"),
                            classes=classify(case, "parse")))
@@ -196,7 +206,7 @@ def judge(chk, case, resp):
     if d.get("wf") == "fail":
         ln, src = line_of(text, d)
         chk.hist("outcome", "wf_fail:" + d.get("clause", "?"))
-        chk.violation(f"emitted RTLIL is not well-formed: clause {d.get('clause')} in module {d.get('module')}: {d.get('item')} "
+        report(chk, f"emitted RTLIL is not well-formed: clause {d.get('clause')} in module {d.get('module')}: {d.get('item')} "
                       f"(line {ln} `{src.strip()[:80]}`; stream {case['stream']}, design seed {case['seed']})",
                       dict(replay, kind="wf", clause=d.get("clause"), module=d.get("module"), item=d.get("item"), line=ln,
                            source=src, names=case.get("names"), classes=classify(case, "wf")))
@@ -233,9 +243,9 @@ def run(chk):
         return
     rng = chk.rng
     quick = chk.tier == "quick"
-    n_main = 1400 if quick else 24000
-    n_c02 = 300 if quick else 5000
-    n_odd = 120 if quick else 1500
+    n_main = 1400 if quick else 16000
+    n_c02 = 300 if quick else 3000
+    n_odd = 120 if quick else 1000
     base = dict(instances=True, memories=True, iobufs=True, layouts=True)
     plan = [("design", n_main, dict(base)),
             ("design", n_odd, dict(base, odd="dollar")),
@@ -254,6 +264,9 @@ def run(chk):
         for cases in ex.map(job, args, chunksize=1):
             for c in cases:
                 judge(chk, c, c.get("resp"))
+    if chk.extra.get("generator_errors", 0) > 0.05 * sum(n for _k, n, _o in plan):
+        chk.not_shown("the design generator itself fails on more than 5% of the seeds (nothing is being checked)",
+                      {"generator_errors": chk.extra["generator_errors"], "example": chk.extra.get("generator_error_example")})
     chk.cov["rule"] = (
         "whole designs: module trees of depth <= 4 (1-8 modules, a quarter of them empty, at top/inner/leaf positions), a pool of "
         "3-11 signals with names drawn with replacement from 12 names shared with ports, submodules, clock and reset signals, "
